@@ -123,14 +123,17 @@ func (up *UsagePool) LoadOrStore(key, val any) (value any, loaded bool) {
 		atomic.AddInt32(&upv.refs, 1)
 		up.Unlock()
 		verifYield(up, 3, upv)
-		upv.Lock()
-		if upv.err == nil {
-			value = upv.value
-		} else {
-			upv.value = val
-			upv.err = nil
+		upv.RLock()
+		value = upv.value
+		failed := upv.err != nil
+		upv.RUnlock()
+		if failed {
+			// the value we loaded was still being constructed by
+			// LoadOrNew and its constructor failed, which means
+			// LoadOrNew has removed it from the pool again (and
+			// our reference with it); so start over
+			return up.LoadOrStore(key, val)
 		}
-		upv.Unlock()
 	} else {
 		upv = &usagePoolVal{refs: 1, value: val}
 		up.pool[key] = upv
